@@ -290,41 +290,42 @@ def run(chk):
     work = os.path.join(chk.tmp, "spec")
     V.copy_specs(os.path.join(V.SPEC, ID), work)
 
-    # ---- 1. design level (TLC, exhaustive): the snapshot/dirty-set mechanism implements the abstract store
-    design = [("MCCritSecImplStr", True), ("MCCritSecImplMix", True)] if quick else \
-             [("MCCritSecImplStr", True), ("MCCritSecImplMix", True), ("MCCritSecImplAll", True)]
-    broken = [("MCCritSecImplNoDirtyRead", False), ("MCCritSecImplCommitAfterPreFail", False)]
-    if not quick:
-        set_cfg(os.path.join(work, "MCCritSecImplMix.cfg"), MaxOps=3)
     gens = sorted(INST)
-    for gname in gens:
-        set_cfg(os.path.join(work, "MCCritSec%s.cfg" % gname), MaxOps=2 if quick else 3)
+    if not chk.replay:   # (--replay re-executes one recorded case only)
+        # ---- 1. design level (TLC, exhaustive): the snapshot/dirty-set mechanism implements the abstract store
+        design = [("MCCritSecImplStr", True), ("MCCritSecImplMix", True)] if quick else \
+                 [("MCCritSecImplStr", True), ("MCCritSecImplMix", True), ("MCCritSecImplAll", True)]
+        broken = [("MCCritSecImplNoDirtyRead", False), ("MCCritSecImplCommitAfterPreFail", False)]
+        if not quick:
+            set_cfg(os.path.join(work, "MCCritSecImplMix.cfg"), MaxOps=3)
+        for gname in gens:
+            set_cfg(os.path.join(work, "MCCritSec%s.cfg" % gname), MaxOps=2 if quick else 3)
 
-    def tlc_job(job):
-        kind, name = job
-        if kind == "gen":
-            return job, V.tlc(work, "MCCritSec", cfg="MCCritSec%s.cfg" % name, workers=1, timeout=1500, deadlock=False, jvm=LEAN)
-        return job, V.tlc(work, "MCCritSecImpl", cfg=name + ".cfg", workers=2 if quick else 4, timeout=2400, deadlock=False, jvm=LEAN)
+        def tlc_job(job):
+            kind, name = job
+            if kind == "gen":
+                return job, V.tlc(work, "MCCritSec", cfg="MCCritSec%s.cfg" % name, workers=1, timeout=1500, deadlock=False, jvm=LEAN)
+            return job, V.tlc(work, "MCCritSecImpl", cfg=name + ".cfg", workers=2 if quick else 4, timeout=2400, deadlock=False, jvm=LEAN)
 
-    jobs = [("gen", g) for g in gens] + [("impl", n) for n, _ in design + broken]
-    results = {}
-    with concurrent.futures.ThreadPoolExecutor(max_workers=len(jobs)) as ex:
-        for job, res in ex.map(tlc_job, jobs):
-            results[job] = res
-    for n, _ in design:
-        chk.add_tlc("%s exhaustive (TypeOK, IdleClean, InputPrefix, ImplAgrees)" % n, results[("impl", n)])
-    chk.exhaustive = all(results[("impl", n)].ok for n, _ in design)
-    for n, _ in broken:
-        r = results[("impl", n)]
-        chk.tlc_jobs.append(r.summary(n + " (vacuity: the broken mechanism MUST violate ImplAgrees)"))
-        if not (r.violation and "ImplAgrees" in r.violation):
-            chk.inconclusive.append("vacuity check %s did not produce the expected ImplAgrees counterexample" % n)
-    for gname in gens:
-        chk.add_tlc("MCCritSec%s generator graph (TypeOK, IdleClean, InputPrefix, AtomicEnd)" % gname, results[("gen", gname)])
-        if not os.path.exists(os.path.join(work, "edges-%s.ndjson" % gname)):
-            raise V.Inconclusive("TLC did not export the graph of %s" % gname)
-    if chk.inconclusive:
-        return chk.finish(rule="(design-level TLC jobs failed)")
+        jobs = [("gen", g) for g in gens] + [("impl", n) for n, _ in design + broken]
+        results = {}
+        with concurrent.futures.ThreadPoolExecutor(max_workers=len(jobs)) as ex:
+            for job, res in ex.map(tlc_job, jobs):
+                results[job] = res
+        for n, _ in design:
+            chk.add_tlc("%s exhaustive (TypeOK, IdleClean, InputPrefix, ImplAgrees)" % n, results[("impl", n)])
+        chk.exhaustive = all(results[("impl", n)].ok for n, _ in design)
+        for n, _ in broken:
+            r = results[("impl", n)]
+            chk.tlc_jobs.append(r.summary(n + " (vacuity: the broken mechanism MUST violate ImplAgrees)"))
+            if not (r.violation and "ImplAgrees" in r.violation):
+                chk.inconclusive.append("vacuity check %s did not produce the expected ImplAgrees counterexample" % n)
+        for gname in gens:
+            chk.add_tlc("MCCritSec%s generator graph (TypeOK, IdleClean, InputPrefix, AtomicEnd)" % gname, results[("gen", gname)])
+            if not os.path.exists(os.path.join(work, "edges-%s.ndjson" % gname)):
+                raise V.Inconclusive("TLC did not export the graph of %s" % gname)
+        if chk.inconclusive:
+            return chk.finish(rule="(design-level TLC jobs failed)")
 
     timing["tlc_design_and_generator"] = round(time.time() - t0, 1); t0 = time.time()
     # ---- 2. cases
@@ -332,6 +333,7 @@ def run(chk):
     if chk.replay:
         rp = json.load(open(chk.replay))
         cases = [rp["case"]["case"]]
+        chk.notes["replay_of"] = rp.get("key")
     else:
         for gi, gname in enumerate(gens):
             g = Graph(os.path.join(work, "edges-%s.ndjson" % gname))
@@ -343,6 +345,27 @@ def run(chk):
                                "cover_walks": len(walks), "random_walks": len(rwalks)}
             if left:
                 chk.gaps.append("%s: %d exported edges are unreachable by walks from Init" % (gname, left))
+            # vacuity: every way an attempt can end must occur in the graph, for every resource of the configuration
+            labels = collections.Counter()
+            for (_, _, _, act) in g.edges:
+                if act["t"] == "op":
+                    labels["op:%s:%s" % (act["r"], act.get("inj") or "ok")] += 1
+                elif act["t"] == "end":
+                    labels["end:%s:%s:%s" % (act["how"], act.get("r", ""), act.get("m", ""))] += 1
+                else:
+                    labels[act["t"]] += 1
+            need = ["begin", "end:commit::", "end:body::"]
+            for rn, kd in KINDS[gname].items():
+                need.append("op:%s:ok" % rn)
+                need.append("op:%s:pre" % rn)
+                if kd != "rout":
+                    need += ["op:%s:post" % rn, "end:pre:%s:pre" % rn, "end:pre:%s:post" % rn]
+                if kd in ("in", "cin"):
+                    need.append("feed")
+            missing = [n for n in need if not labels[n]]
+            gen_note[gname]["edge_labels"] = len(labels)
+            if missing:
+                chk.inconclusive.append("generator %s is vacuous: no edge labelled %s" % (gname, missing))
             # the primary instantiation (rotates with the seed) replays the complete edge cover,
             # the others a seeded sample of it; every instantiation gets the random walks
             primary = (chk.seed + gi) % len(INST[gname])
@@ -457,7 +480,7 @@ def run(chk):
         "the driver's hand-built archetype issues exactly the recorded iface.Read/iface.Write calls (it is modelled on generated code)",
         "out-of-band observers: Persistable.GetState, ReadArchetypeResourceLocal, files, badger, Go channels, the peer's Mailboxes resource, TwoPCReceiver GetState",
         "a committed message that does not reach the peer mailbox within 30 s is reported as INCONCLUSIVE, not as a violation",
-        "documented exclusions are never scheduled: a failure after a successful relaxed-mailbox send; SingleOutputChan; crash recovery",
+        "documented exclusions are never scheduled: a failure after a successful relaxed-mailbox / SingleOutputChan send; crash recovery",
     ]
     chk.gaps += ["Persistent: writes through Index are not persisted (persistence only; not judged)",
                  "PersistentLog: database contents are not compared, only the resource's value",
